@@ -251,6 +251,18 @@ class ScriptedApps:
                     off += n
                 if total == 0 and end:
                     await self._send(send, inst, {"type": "http.response.body", "body": b"", "more_body": False})
+            elif op == "send_chunks":
+                # ["send_chunks", tag, [sizes...], pause_k]: body messages of the given sizes (0 allowed);
+                # the last one carries more_body=False
+                tag, sizes = step[1], step[2]
+                k = step[3] if len(step) > 3 else 0
+                off = 0
+                for i, n in enumerate(sizes):
+                    await self._send(send, inst, {"type": "http.response.body", "body": pattern(tag, off, n),
+                                                  "more_body": i < len(sizes) - 1})
+                    off += n
+                    for _ in range(k):
+                        await shim.checkpoint()
             elif op == "sleep":
                 await shim.sleep(step[1])
             elif op == "yield":
